@@ -97,10 +97,20 @@ func ZZH_C07_probe() {
 	zz.Assume(nonce < 1<<62)
 	exec.ledger.PrepareBlock(zzHash(2), 2)
 	exec.txsExecutor.ApplyTransactions(nil, nil) // resets the per-block counters
-	if zz.Choice("touchedEarlierInBlock", 2) == 1 {
-		// an earlier transaction of the block already used the contract account
+	// what an earlier, successful transaction of the same block did to the contract account
+	wantK1 := []byte("old")
+	switch zz.Choice("earlierInBlock", 4) {
+	case 1: // only read it
 		exec.ledger.GetState(probe, []byte("k1"))
 		exec.ledger.Finalise(true)
+	case 2: // deleted the committed key
+		exec.ledger.SetState(probe, []byte("k1"), nil, nil)
+		exec.ledger.Finalise(true)
+		wantK1 = nil
+	case 3: // overwrote it
+		exec.ledger.SetState(probe, []byte("k1"), []byte("mid"), nil)
+		exec.ledger.Finalise(true)
+		wantK1 = []byte("mid")
 	}
 	tx := zzProbeTx(nonce)
 	receipt := exec.applyTx(0, tx, "", nil)
@@ -115,7 +125,20 @@ func ZZH_C07_probe() {
 		zz.Tag("C07.D6", did.add)
 		zz.Tag("C07.D7", zz.Or(did.interchainEv, did.serviceEv))
 		ok1, v1 := exec.ledger.GetState(probe, []byte("k1"))
-		zz.Assert("C07.failed.journaled-state-restored", ok1 && string(v1) == "old")
+		if wantK1 == nil {
+			zz.Assert("C07.failed.journaled-state-restored", !ok1)
+		} else {
+			zz.Assert("C07.failed.journaled-state-restored", ok1 && string(v1) == string(wantK1))
+		}
+		// the restored state is also what gets persisted
+		acc2, root2 := exec.ledger.FlushDirtyData()
+		_ = exec.ledger.StateLedger.Commit(2, acc2, root2)
+		ok3, v3 := exec.ledger.GetState(probe, []byte("k1"))
+		if wantK1 == nil {
+			zz.Assert("C07.failed.persisted-state", !ok3)
+		} else {
+			zz.Assert("C07.failed.persisted-state", ok3 && string(v3) == string(wantK1))
+		}
 		ok2, _ := exec.ledger.GetState(probe, []byte("k2"))
 		zz.Assert("C07.failed.added-state-restored", !ok2)
 		zz.Assert("C07.failed.other-balance", zzBalance(exec, zzUsers[1]).Cmp(big.NewInt(100)) == 0)
